@@ -107,7 +107,7 @@ func randTree(r rng, nodeCount int, withBad bool) VarSpec {
 var c17ValidVars = []int{0, 1, 2, 3, 4, 5, 6, 7, 8, 14, 15, 17, 18, 20, 21, 22, 23}
 var c17BadVars = []int{9, 10, 11, 12, 13, 16, 19, 24, 25, 26, 27}
 
-// the alphabets of the exhaustively enumerated option lists (length <= 3)
+// the alphabets of the exhaustively enumerated option lists (length <= 4)
 var c17EvalAlphabet = []EOpt{
 	{Kind: "var", Name: "a", Var: 0}, {Kind: "var", Name: "a", Var: 1}, {Kind: "var", Name: "b", Var: 6},
 	{Kind: "var", Name: "context", Var: 0}, {Kind: "var", Name: "ucum", Var: 1},
@@ -149,6 +149,16 @@ func c17PreludeRuns() int {
 	return (ne + c17ListsPerRun - 1) / c17ListsPerRun
 }
 
+// The lists of length 4 (the property quantifies over lengths 0..4) are enumerated by a second
+// block of runs, so that the runs of the first block - and every replay file made from them -
+// keep their meaning: run c17Len4First+j carries the lists 820+20j.. (evaluate) and 585+20j..
+// (compile) of the length-then-lexicographic order.
+const c17Len4First = 1000
+
+func c17Len4Runs() int {
+	return (9*9*9*9 + c17ListsPerRun - 1) / c17ListsPerRun
+}
+
 func genC17(seed uint64, run int, tier string) *Case {
 	r := newRng(seed, uint64(run)*64+streamC17)
 	c := &Case{Mode: "C17", Tier: tier, Seed: seed, Run: run, Shape: "swarm", C17: &C17Case{}}
@@ -172,13 +182,18 @@ func genC17(seed uint64, run int, tier string) *Case {
 	}
 	c.Tape = t
 
-	if run < c17PreludeRuns() {
-		// ---- exhaustively enumerated slice: every option list of length <= 3 ----
+	if run < c17PreludeRuns() || (run >= c17Len4First && run < c17Len4First+c17Len4Runs()) {
+		// ---- exhaustively enumerated slice: every option list of length <= 4 ----
 		c.Shape = "enumerated-option-lists"
 		var ops []C17Op
 		for k := 0; k < c17ListsPerRun; k++ {
-			n := run*c17ListsPerRun + k
-			if idx, ok := nthList(n, len(c17EvalAlphabet), 3); ok {
+			ne, nc, maxLen := run*c17ListsPerRun+k, run*c17ListsPerRun+k, 3
+			if run >= c17Len4First {
+				maxLen = 4
+				ne = 1 + 9 + 81 + 729 + (run-c17Len4First)*c17ListsPerRun + k
+				nc = 1 + 8 + 64 + 512 + (run-c17Len4First)*c17ListsPerRun + k
+			}
+			if idx, ok := nthList(ne, len(c17EvalAlphabet), maxLen); ok {
 				var opts []EOpt
 				for _, i := range idx {
 					opts = append(opts, c17EvalAlphabet[i])
@@ -188,7 +203,7 @@ func genC17(seed uint64, run int, tier string) *Case {
 				ops = append(ops, C17Op{Tmpl: "call0", Src: "Patient.name.o0()", COpts: []COpt{{Kind: "fn", Name: "o0", Fn: "obs0"}}, Field: "name", Res: []int{0}, Opts: opts})
 				c.C17.EnumEval++
 			}
-			if idx, ok := nthList(n, len(c17CompileAlphabet), 3); ok {
+			if idx, ok := nthList(nc, len(c17CompileAlphabet), maxLen); ok {
 				var opts []COpt
 				for _, i := range idx {
 					o := c17CompileAlphabet[i]
